@@ -41,7 +41,18 @@ var texts = []string{
 	"HUGE",                      // replaced by a 1 MiB valid definition
 	"schedule: \"61 * * * *\"\nsteps:\n  - name: s1\n    command: \"true\"\n", // invalid schedule
 	"tags: x,y\nschedule: \"5 4 * * *\"\nsteps:\n  - name: only\n    command: echo ok\n",
+	// (appended; indices above are referenced by saved replays)
+	"steps:\n  - name: s1\n    command: \"true\"\nhandlerOn:\n  exit:\n    name: h\n",                                   // a handler with nothing to execute
+	"steps:\n  - name: s1\n    command: \"true\"\nhandlerOn:\n  failure:\n    command: \"\"\n",                          // a handler with an empty command
+	"steps:\n  - name: s1\n    command: \"true\"\nhandlerOn:\n  success:\n    call:\n      function: nope\n      args: {}\n", // a handler calling an undefined function
+	"steps:\n  - name: s1\n    call:\n      function: nope\n      args: {}\n",                                             // a step calling an undefined function
+	"steps:\n  - name: s1\n    command: \"true\"\nhandlerOn:\n  exit:\n    command: echo bye\n",                      // valid, with a handler
 }
+
+// textValid is the expected verdict per text, stated independently of the
+// loader (the documented rules: well-formed YAML, every step and handler has
+// something to execute, schedules parse, called functions exist).
+var textValid = []bool{true, true, false, false, true, true, false, true, false, false, false, false, true}
 
 func text(i int) string {
 	t := texts[i%len(texts)]
@@ -52,6 +63,12 @@ func text(i int) string {
 }
 
 func valid(t string) bool {
+	for i, x := range texts {
+		if x == t || (x == "HUGE" && len(t) > 1<<20) {
+			return textValid[i]
+		}
+	}
+	// not one of the pool's texts (what is read back from a file): ask the loader
 	_, err := dag.LoadYAML([]byte(t))
 	return err == nil
 }
